@@ -27,7 +27,7 @@ def oracle(ctx, specs, k, rnd, dups):
 
 def shard(ctx):
     q = ctx.tier == "quick"
-    tinfer.run_engine(ctx, oracle, 500 if q else 12000, 2, 0.25 if q else 1.0)
+    tinfer.run_engine(ctx, oracle, 1500 if q else 15000, 2, 0.25 if q else 1.0)
 
 
 def run(ctx):
